@@ -9,6 +9,7 @@ use crate::{
 use pest::iterators::Pair;
 use simplesl_macros::var_type;
 use simplesl_parser::Rule;
+use std::sync::Arc;
 
 #[derive(Debug)]
 pub struct TypeFilter {
@@ -37,12 +38,13 @@ impl Exec for TypeFilter {
         let _helper = crate::verif::helper_scope();
         let mut interpreter = interpreter.create_layer();
         interpreter.insert("iterator".into(), iterator);
-        let default_value = Variable::of_type(&self.var_type).unwrap();
+        let default_value = Variable::of_type(&self.var_type).unwrap_or(Variable::Void);
         interpreter.insert("default".into(), default_value);
-        Ok(Code::parse(
+        // declared over `any` and retyped below: not every type has a default value of its own type
+        let function = Code::parse(
             &interpreter,
             &format!(
-                "() -> (bool, {}) {{
+                "() -> (bool, any) {{
                     loop {{
                         res := iterator();
                         (con, value) := res;
@@ -55,7 +57,13 @@ impl Exec for TypeFilter {
             ),
         )
         .unwrap()
-        .exec()?)
+        .exec()?
+        .into_function()
+        .unwrap();
+        let mut function = Arc::unwrap_or_clone(function);
+        let iter_type = self.var_type.clone();
+        function.return_type = var_type!((bool, iter_type));
+        Ok(function.into())
     }
 }
 
